@@ -31,7 +31,7 @@ def translate(ctx):
     return []
 
 
-def documented(real_load, yaml, node, op, py_type_of):
+def documented(real_load, yaml, node, op, py_type_of, oracle=None):
     """the documented condition for the helper to return normally (independent of the model)"""
     k = op[0]
     S, Q, M = yaml.ScalarNode, yaml.SequenceNode, yaml.MappingNode
@@ -52,6 +52,15 @@ def documented(real_load, yaml, node, op, py_type_of):
             return False
         if op[2] is None:
             return True
+        if oracle is not None:
+            # the reference pipeline's own notion of "the value is of that type" (independent of yatiml)
+            import pipeline_oracle as PO
+            try:
+                return bool(oracle.types(vals[0], op[2]))
+            except PO.Reject:
+                return False
+            except PO.Undefined:
+                pass
         ts, _ = real_load.recognize(copy.deepcopy(vals[0]), py_type_of(op[2]))
         return len(ts) > 0
     if k in ('rval', 'rvalnot'):
@@ -201,6 +210,12 @@ def explore(ctx):
                     v = 'a'
                 ops.append((rng.choice(['rval', 'rvalnot']), a, v))
         py_type_of = c.model.py_type
+        oracle = None
+        try:
+            import pipeline_oracle as PO
+            oracle = PO.Oracle(c.model, yaml, yatiml, c.real.loader_cls)
+        except Exception:  # noqa  (custom recognisers etc.: outside the reference)
+            oracle = None
         before = N.canon_node(yaml, node)
         strings = N.all_scalar_values(yaml, node, set())
         for op in ops:
@@ -235,7 +250,7 @@ def explore(ctx):
                                    op=repr(op), classes=c.model.source[-1500:]))
                 continue
             try:
-                want = documented(c.real, yaml, node, op, py_type_of)
+                want = documented(c.real, yaml, node, op, py_type_of, oracle)
             except Exception as e:  # noqa
                 ctx.count('oracle_error:' + type(e).__name__)
                 continue
